@@ -19,6 +19,7 @@ import (
 	"strings"
 	"sync"
 	"sync/atomic"
+	"syscall"
 	"testing"
 	"testing/synctest"
 	"time"
@@ -270,6 +271,16 @@ func (c *recConn) Set(key string, value []byte) error {
 			op.Err = errInjected.Error()
 			c.record(op)
 			return errInjected
+		case "rlimit":
+			// the write is cut short after Arg bytes by the file-size limit (full disk / quota)
+			restore := LimitFileSize(uint64(f.Arg))
+			err := w.inner.Set(key, value)
+			restore()
+			if err != nil {
+				op.Err = err.Error()
+			}
+			c.record(op)
+			return err
 		default:
 			// a write that silently stores something else (torn / corrupted medium)
 			value = mutate(value, f)
@@ -907,6 +918,10 @@ func (w *World) corrupt(c *Corrupt) {
 	if c == nil {
 		return
 	}
+	if strings.HasPrefix(c.Kind, "file-") {
+		w.corruptFile(c)
+		return
+	}
 	ks, _ := w.liveKeys()
 	if len(ks) == 0 {
 		return
@@ -1119,3 +1134,73 @@ func (o *Obs) Validated304(ex *Exchange) *Call {
 }
 
 func B64(b []byte) string { return base64.StdEncoding.EncodeToString(b) }
+
+// LimitFileSize lowers RLIMIT_FSIZE (soft) to n bytes and returns the function restoring it.
+// Go ignores SIGXFSZ, so a write reaching the limit is cut short and fails with EFBIG.
+func LimitFileSize(n uint64) func() {
+	var old syscall.Rlimit
+	if err := syscall.Getrlimit(syscall.RLIMIT_FSIZE, &old); err != nil {
+		return func() {}
+	}
+	lim := old
+	lim.Cur = n
+	if lim.Cur > lim.Max {
+		lim.Cur = lim.Max
+	}
+	_ = syscall.Setrlimit(syscall.RLIMIT_FSIZE, &lim)
+	return func() { _ = syscall.Setrlimit(syscall.RLIMIT_FSIZE, &old) }
+}
+
+// Files lists the regular files under the world's cache directory (sorted, relative).
+func listFiles(dir string) []string {
+	var out []string
+	_ = filepath.WalkDir(dir, func(p string, d os.DirEntry, err error) error {
+		if err == nil && !d.IsDir() {
+			out = append(out, p)
+		}
+		return nil
+	})
+	sort.Strings(out)
+	return out
+}
+
+// corruptFile tampers with the raw bytes of one stored file (file-flip, file-trunc,
+// file-append, file-swap, file-zero).
+func (w *World) corruptFile(c *Corrupt) {
+	files := listFiles(w.dir)
+	if len(files) == 0 {
+		return
+	}
+	f := files[((c.KeySel%len(files))+len(files))%len(files)]
+	data, err := os.ReadFile(f)
+	if err != nil {
+		return
+	}
+	switch c.Kind {
+	case "file-flip":
+		if len(data) == 0 {
+			return
+		}
+		k := ((c.Arg % len(data)) + len(data)) % len(data)
+		data[k] ^= 0x01
+	case "file-trunc":
+		if len(data) == 0 {
+			return
+		}
+		k := ((c.Arg % len(data)) + len(data)) % len(data)
+		data = data[:k]
+	case "file-append":
+		data = append(data, []byte(c.Data)...)
+	case "file-zero":
+		data = nil
+	case "file-swap":
+		g := files[(((c.KeySel+1+c.Arg)%len(files))+len(files))%len(files)]
+		other, err := os.ReadFile(g)
+		if err != nil || g == f {
+			return
+		}
+		_ = os.WriteFile(g, data, 0o644)
+		data = other
+	}
+	_ = os.WriteFile(f, data, 0o644)
+}
